@@ -27,7 +27,7 @@ def _c09():
 def _c15():
 	from engines.dump import ENGINE
 	return ENGINE, dict(
-		level="fault_enumeration", runs_quick=3200, budget_quick_s=50, chunk=10,
+		level="fault_enumeration", runs_quick=2000, budget_quick_s=45, chunk=10,
 		rule="one case = one seeded history of append_msg/append_all/read/reopen operations on the real "
 			"DATADumpFile over a simulated disk, followed by crash cuts of the resulting byte stream: EVERY "
 			"byte offset when the history has few records (quick <= 5, thorough <= 12), otherwise all record "
